@@ -645,12 +645,21 @@ theorem unionP_spec (a b : PLoc) (ha : WF a.1) (hb : WF b.1) (hsp : sameParent a
       · have : unionP (.compound la, pa) (.compound lb, pb) =
             (do if la.strand ≠ lb.strand then throw Err.ValueError
                 if (!pa.isEmpty) = true then requireParentsEq pa pb
+                if idsIncomparable pa pb then throw Err.TypeError
                 mergeBlocks (sortSingles (la.blocks.map (fun x => (x, pa)) ++ lb.blocks.map (fun x => (x, pb))))
                   la.strand) := rfl
         rw [this]
         simp only [hsa, hsb, ne_eq, not_true_eq_false, if_false]
         rw [parCheck pa pb hj, hsp]
-        simp only [if_true]
+        have hinc : idsIncomparable pa pb = false := by
+          unfold idsIncomparable
+          cases pa with
+          | nil =>
+            cases pb with
+            | nil => rfl
+            | cons y ys => exact absurd ⟨rfl, by simp⟩ hj
+          | cons x xs => rfl
+        simp only [if_true, hinc, Bool.false_eq_true, if_false]
         rw [withPar_of_ne r p0 (good_ne_empty r h3), ← hsa]
         exact hr
       · rcases hmem x0 hx0 with ⟨_, h⟩ | ⟨_, h⟩
@@ -724,6 +733,7 @@ theorem unionP_none (a b : PLoc) (hj : ¬ OneSidedParent a b) (href : unionRefus
       have : unionP (.compound la, pa) (.compound lb, pb) =
           (do if la.strand ≠ lb.strand then throw Err.ValueError
               if (!pa.isEmpty) = true then requireParentsEq pa pb
+              if idsIncomparable pa pb then throw Err.TypeError
               mergeBlocks (sortSingles (la.blocks.map (fun x => (x, pa)) ++ lb.blocks.map (fun x => (x, pb))))
                 la.strand) := rfl
       rw [this]
